@@ -207,14 +207,17 @@ int World::exec_array(const Op &op) {
         else if (invalid == 2 && rank) { size_t d = r.below(rank); off[d] = m.extent[d] + r.below(3); if (!cntv[d]) cntv[d] = 1; arg_class += ",offset-outside"; }
         else if (invalid == 3) { off.push_back(0); cntv.push_back(1); arg_class += ",wrong-rank"; }
         else if (invalid == 4) { mt = (m.dtype == DataType::String) ? DataType::Double : DataType::String; arg_class += ",wrong-eltype"; }
+        else if (invalid == 5) { static const DataType un[] = {DataType::Char, DataType::Nothing, DataType::Opaque}; mt = un[r.below(3)]; arg_class += ",unsupported-eltype"; }
         else invalid = 0;
         size_t n = 1; for (auto c : cntv) n *= (size_t) c;
         if (cntv.empty()) n = 0;
         WriteData w;
-        gen_write(r, m, mt, n, w);
+        std::string zeros;
+        if (invalid == 5) zeros.assign(n * 16 + 16, '\0'); else gen_write(r, m, mt, n, w);
         const void *buf = mt == DataType::String ? (const void *) w.strs.data() : (const void *) w.raw.data();
         std::string dummy(16, '\0'); std::vector<std::string> sdummy(1);
         if (n == 0) buf = mt == DataType::String ? (const void *) sdummy.data() : (const void *) dummy.data();
+        if (invalid == 5) buf = zeros.data();
         if (op.kind == OP_arr_view && !invalid) {
             // write through a DataView whose window is [woff, woff+wcnt) and view-relative offset
             std::vector<uint64_t> woff(rank), wcnt(rank), rel(rank);
@@ -270,11 +273,14 @@ int World::exec_array(const Op &op) {
         else invalid = 0;
         DataType mt = m.dtype;
         if (((unsigned) a[3]) % 24 == 4) { mt = (m.dtype == DataType::String) ? DataType::Double : DataType::String; arg_class += ",wrong-eltype"; invalid = 4; }
+        else if (((unsigned) a[3]) % 24 == 5) { static const DataType un[] = {DataType::Char, DataType::Nothing, DataType::Opaque}; mt = un[r.below(3)]; arg_class += ",unsupported-eltype"; invalid = 5; }
         size_t n = 1; for (auto c : cntv) n *= (size_t) c;
         WriteData w;
-        gen_write(r, m, mt, n, w);
+        std::string zeros;
+        if (invalid == 5) zeros.assign(n * 16 + 16, '\0'); else gen_write(r, m, mt, n, w);
         std::string dummy(16, '\0'); std::vector<std::string> sdummy(1);
         const void *buf = mt == DataType::String ? (const void *) (n ? w.strs.data() : sdummy.data()) : (const void *) (n ? w.raw.data() : dummy.data());
+        if (invalid == 5) buf = zeros.data();
         try { x.appendData(mt, buf, to_nd(cntv), ax); }
         catch (const std::exception &) { return 1; }
         if (invalid) { arr.erase(id); dims.erase(id); return 0; }
